@@ -93,6 +93,10 @@ def register(reg):
         raises = list(CONN_RAISES)
         names = ["response"] + [r.rsplit(".", 1)[-1] for r in raises]
         k = eng.choose(st, len(names), f"ci.handle_request@{node.lineno}", names)
+        # the request body may have been pulled from by the time the call ends or fails (in
+        # particular on ConnectionNotAvailable from the HTTP/2 GOAWAY branch, which comes after the send)
+        body = eng.heap_read(st, req, "Request.stream")
+        eng.havoc_heap(st, keys={"Body.consumed"}, keep_local=False)
         if k > 0:
             eng.raise_(st, raises[k - 1], tag={"from": "ci.handle_request"})
         resp = eng.fresh(st, "ref:" + RESPONSE, "resp")
@@ -101,5 +105,8 @@ def register(reg):
         # every connection class puts the network stream into the response extensions
         ext = eng.heap_read(st, resp, "Response.extensions")
         eng.assume(st, dhas(ext.t, str_lit("network_stream")))
+        stream = eng.heap_read(st, resp, "Response.stream")
+        for tn in ("typing_AsyncIterable", "typing_Iterable"):
+            eng.assume(st, z3.Function("isinst_" + tn, ValS, BoolS)(stream.t))
         ev.data["result"] = resp
         return resp
